@@ -31,9 +31,12 @@ _ap = argparse.ArgumentParser()
 _ap.add_argument('ll'); _ap.add_argument('--threads', default=''); _ap.add_argument('--rounds', type=int, default=3)
 _ap.add_argument('--setup', default='setup'); _ap.add_argument('--check', default='check')
 _ap.add_argument('--noprune', action='store_true')
+_ap.add_argument('--drain', action='store_true', help='after the symbolic rounds run every thread to completion or to a blocked spin, and assert completion (bounded progress)')
+_ap.add_argument('--benign', default='', help='comma separated callees whose calls do not change state (pure spin loops with local counters gating them are prunable)')
 _args = _ap.parse_args()
 src = open(_args.ll).read()
 threads = [t for t in _args.threads.split(',') if t]
+benign = set(x for x in _args.benign.split(',') if x)
 
 # ---------------------------------------------------------------- type parser
 class T:  # kinds: int, ptr, struct(named), lit(struct literal), arr, fn, void, float, double
@@ -688,6 +691,9 @@ def translate_fn(f):
                     if rt.k == 'void': stm.append(call + '; WFLAG')
                     else: define(dst, rt); stm.append('%s = (%s)%s; WFLAG' % (f.vname(dst), ctype(rt), call))
                     continue
+                if direct and callee in benign:
+                    if rt.k != 'void': define(dst, rt); stm.append('%s = 0;' % f.vname(dst))
+                    continue
                 if direct and callee not in fnnames:
                     externs.setdefault(callee, (rt, [a for a, _ in args], bool(fty and fty.va)))
                 call = '%s(%s)' % (cexpr, ', '.join(a for _, a in args))
@@ -702,6 +708,20 @@ def translate_fn(f):
         emit('%s %s(%s) {' % (ctype(f.rt), cname(f.name), args))
         for n, t in f.vals.items(): emit('  %s %s;' % (ctype(t), f.vname(n)))
         for d in decl: emit('  ' + d)
+    def pure_loop(hi, bi):
+        """blocks hi..bi (layout order) contain no store / atomic / non-benign call: an iteration that was
+        not preempted re-reads unchanged memory; loop-carried SSA values (phis) can then only be spin
+        counters gating benign calls (declared by the harness author, listed in the evidence)"""
+        if not benign: return False
+        for bn_, ins_ in blocks[hi:bi + 1]:
+            for ln_ in ins_:
+                x = strip_attrs(ln_); x = re.sub(r'^%("[^"]+"|[\w.$-]+) = ', '', x)
+                op_ = x.split(' ', 1)[0]
+                if op_ in ('store', 'cmpxchg', 'atomicrmw'): return False
+                if op_ == 'call':
+                    m_ = re.search(r'@("[^"]+"|[\w.$-]+)\(', x)
+                    if not m_ or not (m_.group(1).strip('"') in benign or m_.group(1).startswith('llvm.lifetime') or m_.group(1).startswith('llvm.dbg')): return False
+        return True
     def edge(frm, to):
         # phi copies for edge frm->to (parallel copy via temps)
         ph = phis[to]; s = ''
@@ -709,8 +729,12 @@ def translate_fn(f):
             s += '{ ' + ' '.join('%s __t%d = %s;' % (ctype(t), k, [v for v, pr in inc if pr == frm or (pr == entry_label and frm == 'ENTRY')][0]) for k, (d, t, inc) in enumerate(ph))
             s += ' ' + ' '.join('%s = __t%d;' % (f.vname(d), k) for k, (d, t, inc) in enumerate(ph)) + ' } '
         order = [b for b, _ in blocks]
-        if f.is_thread and order.index(to) <= order.index(frm) and not phis[to] and not _args.noprune:
-            s += 'if(!%sw) VASSUME(0); %sw = 0; ' % (f.prefix, f.prefix)
+        if f.is_thread and order.index(to) <= order.index(frm) and not _args.noprune and (not phis[to] or pure_loop(order.index(to), order.index(frm))):
+            if _args.drain:
+                yieldno[0] += 1; k = yieldno[0]
+                s += 'if(!%sw){ if(vp_drain){ %spc = %d; %sblocked = 1; return; } VASSUME(0); } case %d:; %sw = 0; ' % (f.prefix, f.prefix, k, f.prefix, k, f.prefix)
+            else:
+                s += 'if(!%sw) VASSUME(0); %sw = 0; ' % (f.prefix, f.prefix)
         return s + 'goto B_%s;' % cname(to)
     entry_label = str(len(f.params)) if all(re.match(r'\d+$', n) for _, n in f.params) else '0'
     first = True
@@ -764,7 +788,7 @@ def translate_fn(f):
                 local_in.setdefault(next(iter(ds)), []).append(v)
         nloc = sum(len(x) for x in local_in.values())
         emit('/* thread %s: %d SSA values, %d segment-local, %d live across yields */' % (f.name, len(name_of), nloc, len(name_of) - nloc))
-        emit('static int %spc, %sw;' % (f.prefix, f.prefix))
+        emit('static int %spc, %sw, %sblocked;' % (f.prefix, f.prefix, f.prefix))
         islocalv = set(v for vs in local_in.values() for v in vs)
         for n, t in f.vals.items():
             if f.vname(n) not in islocalv: emit('static %s %s;' % (ctype(t), f.vname(n)))
@@ -835,7 +859,7 @@ for f in fobjs:
     body_out.append('\n'.join(out))
 
 hdr = ['/* generated by vp/ll2c.py -- do not edit */', '#include <stdint.h>', '#include <stddef.h>', '#include <string.h>', '#include <stdlib.h>',
-       '#include "vp_harness.h"', 'static inline _Bool __yield(void){ return IN_BOOL(); }']
+       '#include "vp_harness.h"', 'static int vp_drain;', 'static inline _Bool __yield(void){ if(vp_drain) return 0; return IN_BOOL(); }']
 # struct forward decls
 for n in named: hdr.append('struct S_%s;' % cname(n))
 # global decl texts (may create lits)
@@ -913,7 +937,16 @@ print('  for(int vp_round = 0; vp_round < %d; vp_round++) {' % _args.rounds)
 for t in tn:
     print('    if(T_%s_pc != -1) { T_%s_w = 1; %s(); }' % (t, t, t))
 print('  }')
-print('  VASSUME(%s);' % ' && '.join('T_%s_pc == -1' % t for t in tn))
+if _args.drain:
+    print('  vp_drain = 1;')
+    print('  for(int vp_pass = 0; vp_pass < %d; vp_pass++) {' % len(tn))
+    for t in tn:
+        print('    if(T_%s_pc != -1) { T_%s_w = 1; T_%s_blocked = 0; %s(); }' % (t, t, t, t))
+    print('  }')
+    print('  VASSERTM(%s, "progress: once the symbolic schedule ends, running the threads in turn completes all of them (no deadlock, no lost wake-up)");' % ' && '.join('T_%s_pc == -1' % t for t in tn))
+    print('  VASSUME(%s);' % ' && '.join('T_%s_pc == -1' % t for t in tn))
+else:
+    print('  VASSUME(%s);' % ' && '.join('T_%s_pc == -1' % t for t in tn))
 print('  %s();' % cname(_args.check))
 print('  return 0;')
 print('}')
